@@ -4,12 +4,9 @@
 d=$1; shift
 cd /repo || exit 2
 if [ -n "$(git status --porcelain --untracked-files=no)" ]; then echo "repo dirty"; exit 2; fi
-if ! git apply --check "$d/patch.diff" 2>/dev/null; then
-  if ! git apply --3way --check "$d/patch.diff" 2>/dev/null; then echo "PATCH-DOES-NOT-APPLY $d"; exit 3; fi
-  git apply --3way "$d/patch.diff" >/dev/null 2>&1; git reset -q
-else
-  git apply "$d/patch.diff"
-fi
+pf="$d/patch.diff"; [ -f "$d/patch.rebased.diff" ] && pf="$d/patch.rebased.diff"
+if ! git apply --check "$pf" 2>/dev/null; then echo "PATCH-DOES-NOT-APPLY $pf"; exit 3; fi
+git apply "$pf"
 trap 'cd /repo; git checkout -q -- . ; git clean -fdq pysmi scripts 2>/dev/null' EXIT
 echo "--- demo with change (expect failure):"
 (cd /repo && PYTHONPATH=/repo timeout 300 /venv/bin/python "$d/demo.py" >/dev/null 2>&1; echo "demo exit=$?")
